@@ -13,7 +13,8 @@ import CE.Canon
     alphabet (containers, Booleans, null, padding, comments, integers of every width and sign in
     all three event forms, big integers of up to 8192 bits, binary floats (every bit pattern:
     infinities, both NaN kinds, both zeros, values stored in 16, 32 or 64 bits - except the doubles
-    that are float32 subnormals), identifiers of markers / references / records / record types, UIDs,
+    that are float32 subnormals), decimal floats (every special value; any int32 exponent and int64
+    coefficient short of the two extreme values) and big decimals (any coefficient size), identifiers of markers / references / records / record types, UIDs,
     strings and resource identifiers of any length up to 2^61, in short and chunk-header form,
     typed arrays of every byte-multiple element kind (u8 .. u64, i8 .. i64, f16 .. f64, uid)
     sent whole, in short and chunk-header form):
@@ -24,7 +25,7 @@ import CE.Canon
     step reads back exactly this event and leaves the rest of the input untouched".
   * the per-event prefix-code round trips for integers, with arbitrary following bytes
     (`…_partial` below).
-  Not proved (`_partial`): doubles in the float32 subnormal range, decimal floats, times, bit arrays, media, custom types and
+  Not proved (`_partial`): doubles in the float32 subnormal range, times, bit arrays, media, custom types and
   arrays sent in several chunks (the encoder's array state) are carried by the CBE.ENC / CBE.DEC correspondence and the round-trip
   oracle of `bin/check C01` only.
 -/
@@ -77,7 +78,7 @@ theorem structural_encoding_determines_data (a b : List Ev) (ha : a.all simple =
 
 /-- non-vacuity: a nested document with a marker, a reference, a record, integers of several
     widths and signs, a comment and padding satisfies the hypothesis -/
-example : ([Ev.map, .marker [97], .list, .int (-5), .stringlike .string [104, 105], .stringlike .rid (List.replicate 40 120), .float 0x3ff8000000000000, .float 0x7ff0000000000000, .float 0x400921fb54442d18, .array .u16 2 [1, 0, 2, 0], .array .f64 2 (List.replicate 16 0),
+example : ([Ev.map, .marker [97], .list, .int (-5), .stringlike .string [104, 105], .stringlike .rid (List.replicate 40 120), .float 0x3ff8000000000000, .float 0x7ff0000000000000, .float 0x400921fb54442d18, .dfloat (.val (-2) 314), .dfloat .snan, .bigDecimal (some (.val true (10 ^ 30) 7)), .array .u16 2 [1, 0, 2, 0], .array .f64 2 (List.replicate 16 0),
             .posInt 70000, .negInt 0, .endContainer, .true_, .refLocal [97],
             .comment false [120], .padding, .posInt (2 ^ 64 - 1), .record [114, 49], .null, .endContainer,
             .endContainer] : List Ev).all simple = true := by decide
